@@ -153,6 +153,12 @@ impl Out {
         self.w.write_all(b"\n").unwrap();
         self.n += 1;
     }
+    /// a complete JSON object produced elsewhere (the scripted reader's log)
+    pub fn emit_raw(&mut self, line: &str) {
+        self.w.write_all(line.as_bytes()).unwrap();
+        self.w.write_all(b"\n").unwrap();
+        self.n += 1;
+    }
     pub fn flush(&mut self) {
         self.w.flush().unwrap();
     }
